@@ -1,6 +1,49 @@
-(* C11 -- placeholder until the theorems below are filled in (see Proofs/AdjustProofs.v) *)
-From PV Require Import Lib.Base Model.Adjust.
+(* C11 -- adjust_p equals the textbook Bonferroni, Holm and Benjamini-Hochberg adjustments.
+   Statements only; proofs in Proofs/AdjustProofs.v.
+   The textbook values are stated sort-free (no tie order to choose):
+     holm_i = max over {j | p_j <= p_i} of min(1, #{k | p_k >= p_j} p_j)
+     bh_i   = min over {j | p_j >= p_i} of min(1, n p_j / #{k | p_k <= p_j})
+   which are the step-down / step-up formulas of the property text evaluated along ANY sorting order.
+   That the model of the code (running max/min along the argsort order supplied by NumPy) returns exactly these
+   values is checked by computation on every correspondence case (Corr/C11.v); it is not yet a theorem: C11_partial. *)
+From PV Require Import Lib.Base Model.Adjust Proofs.AdjustProofs.
 Open Scope Q_scope.
+
+Theorem C11_spec_is_entrywise : forall p,
+  holm_spec p = map (holm_val p) p /\ bh_spec p = map (bh_val p) p /\
+  bonf_spec p = map (fun x => qcap (qn (length p) * x)) p.
+Proof. intros p. repeat split. Qed.
+Print Assumptions C11_spec_is_entrywise.
+
+(* p <= BH <= Holm <= Bonferroni <= 1, componentwise, for every vector in [0,1]^n *)
+Theorem C11_chain : forall (p : list Q) (x : Q), (forall y, In y p -> 0 <= y <= 1) -> In x p ->
+  x <= bh_val p x /\ bh_val p x <= holm_val p x /\ holm_val p x <= bonf_val p x /\ bonf_val p x <= 1.
+Proof. intros p x Hp Hx. exact (chain p Hp x Hx). Qed.
+Print Assumptions C11_chain.
+
+(* the order of the p-values is preserved; in particular equal raw p-values receive equal adjusted values *)
+Theorem C11_order_preserved : forall p x y, (forall z, In z p -> 0 <= z) -> x <= y ->
+  holm_val p x <= holm_val p y /\ bh_val p x <= bh_val p y.
+Proof. intros p x y Hp H. split; [exact (holm_monotone p x y Hp H)|exact (bh_monotone p x y H)]. Qed.
+Print Assumptions C11_order_preserved.
+
+Theorem C11_ties_equal : forall p x y, (forall z, In z p -> 0 <= z) -> x == y ->
+  holm_val p x == holm_val p y /\ bh_val p x == bh_val p y.
+Proof.
+  intros p x y Hp E. split; apply Qle_antisym;
+  try (apply holm_monotone; [exact Hp|rewrite E; apply Qle_refl]);
+  try (apply bh_monotone; rewrite E; apply Qle_refl).
+Qed.
+Print Assumptions C11_ties_equal.
+
 Theorem C11_unknown_method_rejected : forall p ord, adjust_p p ord Unknown = Err ValueError.
 Proof. intros p ord. reflexivity. Qed.
 Print Assumptions C11_unknown_method_rejected.
+
+Example C11_nonvacuous :
+  let p := [1 # 100; 1 # 100; 3 # 100; 1 # 2] in
+  adjust_p p [1; 0; 2; 3]%nat Holm = Ok [4 # 100; 4 # 100; 6 # 100; 1 # 2] /\
+  adjust_p p [0; 1; 2; 3]%nat Holm = Ok [4 # 100; 4 # 100; 6 # 100; 1 # 2] /\
+  list_eqb Qeq_bool (holm_spec p) [4 # 100; 4 # 100; 6 # 100; 1 # 2] = true /\
+  list_eqb Qeq_bool (bh_spec p) [2 # 100; 2 # 100; 4 # 100; 1 # 2] = true.
+Proof. vm_compute. repeat split; reflexivity. Qed.
